@@ -109,3 +109,55 @@ def block_pairing(ctx, cfg, fs, rule, fn_rx, pairs):
             ok = len(cs) == 1 and cs == ce
             ctx.ob(rule, '%s:%s:Block::%s' % (short(b.path), nm, V), ok,
                    '%s: BlockStart(%s) pushes %s %s time(s) and BlockEnd(%s) pops it %s time(s), over all paths (must be the same single number)' % (short(b.path), V, nm, cs, V, ce), where=b.where(ssw[0].b), cfg=cfg)
+
+
+# who writes the two halves of a Doc (text and token list): every Text token promises `bytes` bytes of payload, so whoever
+# appends text must record exactly the number of BYTES appended
+DOC_WRITERS = {
+    'payload': {'buffer::Doc::write_str': 'push_str(input) + set_style(input.len())', 'buffer::Doc::write': 'write_fmt + set_style(len after - len before)',
+                'buffer::Doc::doc': 'appends another Doc: payload and tokens together', 'buffer::Doc::em_doc': 'appends another Doc with emphasis: payload and tokens together',
+                'buffer::Doc::first_line': 'copies the first line of each text token and its shortened token'},
+    'tokens': {'buffer::Doc::set_style': 'extends the last Text token or pushes a new one', 'buffer::Doc::token': 'pushes a structural token',
+               'buffer::Doc::doc': 'see payload', 'buffer::Doc::em_doc': 'see payload', 'buffer::Doc::first_line': 'see payload'},
+}
+
+def payload_writers(ctx, cfg, fs, rule):
+    seen = {'payload': {}, 'tokens': {}}
+    for p, b in sorted(fs.bodies.items()):
+        for i, k, st in b.stmts():
+            if st['k'] != 'assign':
+                continue
+            acc = [(pr[2], pr[4]) for pr in st['lhs'][1] if pr[0] == 'f']
+            rv = st['rv']
+            if rv['k'] in ('ref', 'rawptr') and rv.get('mut'):
+                acc += [(pr[2], pr[4]) for pr in rv['place'][1] if pr[0] == 'f']
+            for (fn, pt) in acc:
+                if pt == 'buffer::Doc' and fn in seen:
+                    seen[fn].setdefault(p.split('::{closure')[0], b.where(i))
+    for fld, table in DOC_WRITERS.items():
+        if not seen[fld]:
+            raise Broken('no writer of Doc.%s found' % fld)
+        for fn, where in sorted(seen[fld].items()):
+            ctx.ob(rule, 'doc-writers:%s<-%s' % (fld, fn.split('::')[-1]), fn in table, '%s writes Doc.%s: %s' % (fn.split('::')[-1], fld, table.get(fn, 'NOT a listed writer (text and token lengths are kept in step by write_str / write only)')), where=where, cfg=cfg)
+    # write_str: the length recorded is the byte length of the very string appended
+    b = ctx.look(fs.one(r'^buffer::Doc::write_str$'))
+    ps = [c for c in b.calls() if c.is_(r'String::push_str$')]
+    ss = [c for c in b.calls() if c.is_(r'Doc::set_style$')]
+    ok = len(ps) == 1 and len(ss) == 1
+    if ok:
+        txt = {(r.kind, str(r.what)) for r in provenance(b, ps[0].args[1], ps[0].bb, 'term')}
+        ln = provenance(b, ss[0].args[1], ss[0].bb, 'term', through=None)
+        ok = bool(ln) and all(r.kind == 'call' and r.call.is_(r'str::<impl str>::len$') and {(q.kind, str(q.what)) for q in provenance(b, r.call.args[0], r.call.bb, 'term')} == txt for r in ln)
+    ctx.ob(rule, 'doc-writers:write_str:records-byte-length', ok, 'write_str records input.len() bytes for the input it appends: %s' % ok, where=b.where(), cfg=cfg)
+    b = ctx.look(fs.one(r'^buffer::Doc::write$'))
+    ss = [c for c in b.calls() if c.is_(r'Doc::set_style$')]
+    ok = len(ss) == 1
+    if ok:
+        ln = provenance(b, ss[0].args[1], ss[0].bb, 'term', through=None)
+        ok = bool(ln) and all(r.kind == 'bin' and r.extra['op'].startswith('Sub') for r in ln)
+        for r in ln:
+            if r.kind == 'bin':
+                for o in (r.extra['a'], r.extra['b']):
+                    qs = provenance(b, o, r.site[0], r.site[1], through=None)
+                    ok &= bool(qs) and all(q.kind == 'call' and q.call.is_(r'String::len$') and any('payload' in z.path for z in provenance(b, q.call.args[0], q.call.bb, 'term')) for q in qs)
+    ctx.ob(rule, 'doc-writers:write:records-growth', ok, 'write records the growth of the payload (len after - len before) for what it formatted: %s' % ok, where=b.where(), cfg=cfg)
